@@ -128,6 +128,17 @@ def _structure_job(args):
                 if i + 1 < n:
                     T[i, i + 1, 0] = T[i + 1, i, 0] = 1.0 if i % 2 == 0 else 0.0
             herm_measure(rec, "already-tridiagonal", {"structure": "real tridiagonal", "n": n}, T, spec(T))
+            # real tridiagonal with NEGATIVE and mixed-sign off-diagonals (second-difference / negative-correlation matrices)
+            T2 = T.copy()
+            for i in range(n - 1):
+                T2[i, i + 1, 0] = T2[i + 1, i, 0] = (-1.0, -2.0, 3.0, -1.0)[i % 4]
+            herm_measure(rec, "already-tridiagonal:negative-offdiagonal", {"structure": "real tridiagonal, negative off-diagonals", "n": n}, T2, spec(T2))
+            L2 = np.zeros((n, n, 4))
+            for i in range(n):
+                L2[i, i, 0] = 2.0
+                if i + 1 < n:
+                    L2[i, i + 1, 0] = L2[i + 1, i, 0] = -1.0
+            herm_measure(rec, "already-tridiagonal:second-difference", {"structure": "second-difference matrix", "n": n}, L2, spec(L2))
             # integer Hermitian with zero sub-columns (alpha = 0 / r = 0 reflector branches)
             H = np.zeros((n, n, 4))
             for i in range(n):
